@@ -6157,6 +6157,12 @@ impl BytecodeVM {
         Ok(OpResult::Continue)
     }
 
+    /// Close every block scope that is still open in the current frame (used when a function
+    /// run by a nested VM returned from inside nested blocks)
+    pub(crate) fn close_open_scopes(&mut self, interp: &mut Interpreter) {
+        self.unwind_scopes_to(interp, 0);
+    }
+
     /// Pop block scopes until only `depth` of them remain open in the current frame
     fn unwind_scopes_to(&mut self, interp: &mut Interpreter, depth: usize) {
         while self.saved_env_stack.len() > depth {
